@@ -542,6 +542,9 @@ def all_texts(tier):
     for t in CORPUS:
         seen.add(t)
         yield 'corpus', t
+    for t in MUST_REJECT:
+        seen.add(t)
+        yield 'must-reject', t
     for kind, gen in (('literal', literal_texts()), ('ngram', ngram_texts(2 if tier == 'quick' else 3)), ('edit', edit_texts(tier))):
         for t in gen:
             if t not in seen:
@@ -783,6 +786,8 @@ X_KINDS = collections.OrderedDict([
     ('notin-sub-2', (A.NotIn(Y, _sub([Y, M])), None)),
     ('in-sub-star', (A.In(Y, select(A.Asterisk(), from_='t')), None)),
     ('notin-sub-star-where', (A.NotIn(Y, select(A.Asterisk(), from_='t', where=A.Greater(Y, C(0)))), None)),
+    ('in-sub-pivot', (A.In(Y, select([(Y, None), (M, None), (F('count', A.Asterisk()), 'n')], from_='t', group_by=A.GroupBy([1, 2], None), pivot_by=A.PivotBy([1, 2]))), None)),
+    ('notin-sub-pivot-1col', (A.NotIn(Y, select([(Y, None), (M, None)], from_='t', group_by=A.GroupBy([1, 2], None), pivot_by=A.PivotBy([1, 2]))), None)),
     ('in-sub-bad', (A.In(Y, _sub([col('nope')])), None)),
     ('in-sub-unknown-table', (A.In(Y, _sub([Y], 'nope')), None)),
     ('in-list', (A.In(Y, C([2019, 2001, 1999])), None)),
@@ -1100,6 +1105,17 @@ CORPUS = [
     "SELECT first ( account ) , last ( account ) , min ( month ) , max ( month ) FROM #t",
     "SELECT year , sum ( month ) FROM #t GROUP BY year ORDER BY sum ( month )",
 ]
+# aggregates are not allowed in the FROM clause of ANY statement kind
+MUST_REJECT = [
+    "SELECT year FROM count(*) > 1",
+    "SELECT year FROM year = 2019 AND max(month) = 2",
+    "BALANCES FROM count(*) > 1",
+    "BALANCES AT cost FROM sum(month) > 0 CLOSE ON 2019-03-01",
+    "JOURNAL 'Assets' FROM count(*) > 1",
+    "PRINT FROM count(*) > 1",
+    "PRINT FROM year = 2019 AND max(month) = 2",
+    "PRINT FROM first(year) = 2019 OPEN ON 2019-01-01 CLOSE ON 2019-03-01 CLEAR",
+]
 DOUBLE_EDIT_MAXLEN = 5
 
 
@@ -1182,6 +1198,9 @@ def check_text(conn, text, acc, kind, must_accept=False):
     o = attempt(conn, text, None, auto_params=True)
     where = f'{text[:160]!r}' + ('...' if len(text) > 160 else '')
     if record_outcome(o, acc, text, case, where, prefix='c_'):
+        return
+    if o.status == 'accepted' and kind == 'must-reject':
+        acc.violation('accept:aggregate-in-from', f'{text!r} has an aggregate in its FROM clause (not allowed for any statement kind) and is accepted', case)
         return
     if o.status == 'accepted':
         acc.add('c_accepted_statement_kinds', type(o.node).__name__)
